@@ -123,6 +123,7 @@ func TestWorker(t *testing.T) {
 	if n := os.Getenv("VERIF_TRACE_LOG"); n != "" {
 		core.TraceSink, _ = os.OpenFile(n, os.O_WRONLY|os.O_CREATE|os.O_TRUNC, 0o644)
 	}
+	core.Beat = beat
 	startWatchdog()
 	exec := func(tp *tape.Tape) *core.RunResult {
 		beat()
